@@ -473,6 +473,8 @@ static int search_sorted(const char *const *base,
   int search_in_##FIELD(const struct _cffi_type_context_s *ctx,         \
                         const char *search, size_t search_len)          \
   {                                                                     \
+      if (ctx->num_##FIELD == 0)      /* ctx->FIELD may be NULL */       \
+          return -1;                                                    \
       return search_sorted(&ctx->FIELD->name, sizeof(*ctx->FIELD),      \
                            ctx->num_##FIELD, search, search_len);       \
   }
